@@ -85,9 +85,18 @@ structure UserBlock where
   hasCarets : Bool
   deriving Repr
 
-/-- `setContext`: `ast.findTable` returns the FIRST GDEF block; todo pruning.
-returns (GlyphClassDefs ∈ todo, LigatureCarets ∈ todo) -/
+/-- `setContext`: `ctx.gdefTableBlock = ast.findTable(feaFile, "GDEF")` is the FIRST GDEF block (that is where the
+generated statements go; a new block is appended when there is none); when there is one, the statements of ALL
+top-level `table GDEF` blocks are scanned: a GlyphClassDef discards "GlyphClassDefs", a LigatureCaretByIndex/ByPos
+discards "LigatureCarets".  returns (GlyphClassDefs ∈ todo, LigatureCarets ∈ todo) -/
 def gdefTodo (blocks : List UserBlock) : Bool × Bool :=
+  match blocks with
+  | [] => (true, true)
+  | _ :: _ => (!blocks.any (·.hasClassDef), !blocks.any (·.hasCarets))
+
+/-- the same BEFORE the repair of `setContext`: only the statements of the first block were scanned.  Not part of
+`run`; kept for the labelled counterexample in `Props` and for classifying a recurrence. -/
+def gdefTodoOld (blocks : List UserBlock) : Bool × Bool :=
   match blocks with
   | [] => (true, true)
   | b :: _ => (!b.hasClassDef, !b.hasCarets)
